@@ -26,7 +26,7 @@ class FakeFS:
         return io.StringIO(self.files[name])
 
 
-IO_MODULES = ["graphslam.vertex", "graphslam.edge.edge_odometry", "graphslam.edge.edge_landmark", "graphslam.g2o_parameters", "graphslam.graph", "graphslam.edge.base_edge"]
+IO_MODULES = ["graphslam.vertex", "graphslam.edge.edge_odometry", "graphslam.edge.edge_landmark", "graphslam.g2o_parameters", "graphslam.util"]  # not graphslam.graph: it uses np.finfo(float)
 
 
 def install_io(P, g):
